@@ -580,7 +580,17 @@ func (c *specCtx) pureCall(x *SExpr) (Value, bool) {
 		_, isName := c.names[q]
 		_, isLocal := c.e.specLocals[q]
 		_, isBound := c.bound[q]
-		if isName || isLocal || isBound {
+		isGlobal := false
+		if !isName && !isLocal && !isBound {
+			pkg := c.pkg
+			if pkg == nil {
+				pkg = c.e.pkg
+			}
+			if pkg != nil && pkg.Types != nil {
+				_, isGlobal = pkg.Types.Scope().Lookup(q).(*types.Var) // a package-level variable as receiver
+			}
+		}
+		if isName || isLocal || isBound || isGlobal {
 			recvX, mname = &SExpr{Kind: "id", Name: q}, x.Name[i+1:]
 		}
 	}
